@@ -86,16 +86,126 @@ def _case_features(abs_):
             for c in d:
                 f.append("matrix_" + c["kind"])
                 f.append("offset_words" if c["words"] else "offset_bytes")
+                if c["a1"] < 0 or c["a2"] < 0:
+                    f.append("offset_words_negative" if c["words"] else "offset_bytes_negative")
     return f
 
 
+NEEDED_FEATURES = [
+    "long_run_max_ge257", "long_run_split_ge257", "long_run_max_le256", "simple_1_contours", "simple_2_contours",
+    "simple_3_contours", "enc_rep_none", "enc_rep_max", "enc_rep_zero", "enc_rep_split", "enc_zero_same", "enc_zero_word",
+    "enc_zero_short+", "enc_zero_short-", "contour_all_off", "contour_first_off_last_on",
+    "contour_first_off_last_off_some_on", "contour_single_point", "composite_depth_1", "composite_depth_2",
+    "composite_depth_3", "matrix_none", "matrix_scale", "matrix_xy", "matrix_2x2", "offset_words", "offset_bytes",
+    "offset_bytes_negative", "offset_words_negative"]
+
+# planted self-check events: case name -> must the judge reject it?
+SELFTEST = {
+    "selftest-exact-as-prescribed": False,
+    "selftest-exact-half-unit": True,
+    "selftest-command-dropped": True,
+    "selftest-error-on-wellformed": True,
+    "selftest-panic-on-wellformed": True,
+    "selftest-matrix-as-prescribed": False,
+    "selftest-matrix-1/32": True,
+    "selftest-matrix-1/128-accepted": False,
+    "selftest-negative-byte-offset-as-prescribed": False,
+    "selftest-negative-byte-offset-read-unsigned": True,
+    "selftest-beyond-bound-error": False,
+    "selftest-beyond-bound-delivered": True,
+    "selftest-beyond-bound-panic": True,
+}
+
+
+def _planted_events(src):
+    """Binding self-check events built from TLC-generated cases only (records, root and the commands the
+    specification prescribes, `exp`) - nothing in them comes from allsorts, so a broken implementation cannot
+    break the self-check."""
+    def ev(case, tag, o):
+        return {"case": tag, "ev": "Visit", "a": {"n": case["n"], "root": case["root"], "glyphs": case["glyphs"]}, "o": o}
+
+    def delivered(cmds):
+        return {"ok": True, "panic": False, "err": "", "finite": True, "cmds": cmds}
+
+    def shifted(cmds, delta):
+        x = json.loads(json.dumps(cmds))
+        k = next(j for j, c in enumerate(x) if c[0] == 3)
+        x[k][3] += delta
+        return x
+
+    def translated(cmds, dx):
+        return [[c[0]] + ([c[1] + dx, c[2], c[3] + dx, c[4]] if c[0] == 3 else [0, 0, c[3] + dx, c[4]] if c[0] in (1, 2) else c[1:])
+                for c in cmds]
+    failed = {"ok": False, "panic": False, "err": "BadValue", "finite": True, "cmds": []}
+    panicked = {"ok": False, "panic": True, "err": "Panic:planted", "finite": True, "cmds": []}
+    ex, mx, nb, er = src["exact"], src["matrix"], src["negbyte"], src["err"]
+    dropped = json.loads(json.dumps(ex["exp"]))
+    del dropped[next(j for j, c in enumerate(dropped) if c[0] == 3)]
+    out = [
+        ev(ex, "selftest-exact-as-prescribed", delivered(ex["exp"])),
+        ev(ex, "selftest-exact-half-unit", delivered(shifted(ex["exp"], 8192))),
+        ev(ex, "selftest-command-dropped", delivered(dropped)),
+        ev(ex, "selftest-error-on-wellformed", failed),
+        ev(ex, "selftest-panic-on-wellformed", panicked),
+        ev(mx, "selftest-matrix-as-prescribed", delivered(mx["exp"])),
+        ev(mx, "selftest-matrix-1/32", delivered(shifted(mx["exp"], 512))),
+        ev(mx, "selftest-matrix-1/128-accepted", delivered(shifted(mx["exp"], 128))),
+        # a negative byte-sized x offset taken as unsigned moves the component by 256 units
+        ev(nb, "selftest-negative-byte-offset-as-prescribed", delivered(nb["exp"])),
+        ev(nb, "selftest-negative-byte-offset-read-unsigned", delivered(translated(nb["exp"], 256 * 16384))),
+        ev(er, "selftest-beyond-bound-error", failed),
+        ev(er, "selftest-beyond-bound-delivered", delivered([])),
+        ev(er, "selftest-beyond-bound-panic", panicked),
+    ]
+    for k, x in enumerate(out):
+        x["i"] = 10 ** 8 + 1 + k
+    assert {x["case"] for x in out} == set(SELFTEST)
+    return out
+
+
+def _pick_sources(src, c):
+    """Remember the first generated case of each shape the self-check needs."""
+    a = c["abs"]
+    has_q = any(cmd[0] == 3 for cmd in c["exp"])
+    if "exact" not in src and a["kind"] == "simple" and c["st"] == "ok" and has_q and len(a["pats"]) == 2:
+        src["exact"] = c
+    if a["kind"] == "composite" and len(a["defs"]) == 1 and len(a["defs"][0]) == 1 and c["st"] == "ok" and has_q:
+        d = a["defs"][0][0]
+        if "matrix" not in src and d["kind"] == "scale":
+            src["matrix"] = c
+        if "negbyte" not in src and d["kind"] == "none" and not d["words"] and d["a1"] < 0:
+            src["negbyte"] = c
+    if "err" not in src and c["st"] == "err":
+        src["err"] = c
+
+
 def run(ctx):
+    """Violations take precedence over tool problems: what the judge (or an earlier stage) found is reported
+    (exit 1) even when a later stage, a self-check or a vacuity guard fails; a tool error (exit 2) is raised only
+    when there is no violation to report."""
+    violations, cov, deferred = [], {}, []
+    try:
+        _run(ctx, violations, cov, deferred)
+    except Exception as e:        # ToolError, or a driver exception on output it did not expect
+        deferred.append(e)
+    if deferred:
+        known = vlib.load_known(ctx.prop)
+        if not any(v.key not in known for v in violations):
+            raise deferred[0]
+        ctx.note("tool problem after violations had been found; reporting the violations. Problem: %s" % str(deferred[0])[:1500])
+        for k, v in (("states", 0), ("transitions", 0), ("traces_validated_against_impl", 0), ("samples", [])):
+            cov.setdefault(k, v)
+        cov["incomplete_run"] = [str(e)[:500] for e in deferred]
+    vlib.finish(ctx, LEVEL, cov, violations, ASSUMPTIONS)
+
+
+def _run(ctx, violations, cov, deferred):
     binp = vlib.build_harness("c16_glyf")
     cfg = "MC_Glyf_quick.cfg" if ctx.quick else "MC_Glyf_thorough.cfg"
     cases_path = ctx.path("cases.ndjson")
     n_cases = [0]
     features = {}
-    sample_case = []
+    src = {}
     n_err_expected = [0]
     with open(cases_path, "w") as fc:
         def sink(tag, payload):
@@ -108,99 +218,59 @@ def run(ctx):
                 features[f] = features.get(f, 0) + 1
             if c["st"] == "err":
                 n_err_expected[0] += 1
-            if not sample_case and c["abs"]["kind"] == "simple" and len(c["abs"]["pats"]) == 2:
-                sample_case.append(c)
-        mc = vlib.run_tlc(ctx, "MC_Glyf", cfg, "mc", workers=8, timeout=600 if ctx.quick else 2400, sink=sink)
+            if len(src) < 4:
+                _pick_sources(src, c)
+        mc = vlib.run_tlc(ctx, "MC_Glyf", cfg, "mc", workers=4, timeout=600 if ctx.quick else 2400, sink=sink)
     ctx.note("MC_Glyf: %d states generated, %d distinct, %d cases, design invariants hold (%.1fs)" %
              (mc.generated, mc.distinct, n_cases[0], mc.wall))
+    # guards on the generator: TLC output only
     if n_cases[0] == 0:
         raise vlib.ToolError("no CASE lines generated")
-    needed = ["long_run_max_ge257", "long_run_split_ge257", "long_run_max_le256", "simple_1_contours", "simple_2_contours", "simple_3_contours", "enc_rep_none", "enc_rep_max",
-              "enc_rep_zero", "enc_rep_split", "enc_zero_same", "enc_zero_word", "enc_zero_short+", "enc_zero_short-",
-              "contour_all_off", "contour_first_off_last_on", "contour_first_off_last_off_some_on",
-              "contour_single_point", "composite_depth_1", "composite_depth_2", "composite_depth_3",
-              "matrix_none", "matrix_scale", "matrix_xy", "matrix_2x2", "offset_words", "offset_bytes"]
-    missing = [k for k in needed if features.get(k, 0) == 0]
+    missing = [k for k in NEEDED_FEATURES if features.get(k, 0) == 0]
     if missing or n_err_expected[0] == 0:
         raise vlib.ToolError("generator is vacuous for: %s (expected-error cases: %d)" % (missing, n_err_expected[0]))
+    if len(src) < 4:
+        raise vlib.ToolError("self-check: the generator produced no case of shape %s" %
+                             sorted({"exact", "matrix", "negbyte", "err"} - set(src)))
+    sample_case = {k: src["exact"][k] for k in ("abs", "n", "root", "st", "exp")}
+    cov.update({"states": mc.distinct, "tlc_states_generated": mc.generated, "generated_cases": n_cases[0],
+                "generated_cases_expected_error": n_err_expected[0], "generated_case_features": features,
+                "samples": [sample_case]})
 
     # spec -> impl: replay the generated glyph tables on allsorts
     gen_trace = ctx.path("gen_trace.ndjson")
     rep = vlib.run_harness(binp, ["replay", cases_path, gen_trace])
     ctx.note("replay: %s" % json.dumps(rep))
+    cov.update({"transitions": rep.get("cases", 0), "traces_validated_against_impl": rep.get("cases", 0)})
 
-    # impl -> spec: glyphs of the repository fonts
+    # impl -> spec: glyphs of the repository fonts. If this stage fails the generated direction is still judged.
     rec_trace = ctx.path("rec_trace.ndjson")
     sample = 60 if ctx.quick else 0
-    rec = vlib.run_harness(binp, ["record", ctx.seed, sample, rec_trace])
-    ctx.note("record: %s" % json.dumps(rec))
-    if rec.get("glyphs", 0) == 0:
-        raise vlib.ToolError("no glyph recorded from the repository fonts")
+    try:
+        rec = vlib.run_harness(binp, ["record", ctx.seed, sample, rec_trace])
+        ctx.note("record: %s" % json.dumps(rec))
+    except vlib.ToolError as e:
+        deferred.append(e)
+        rec = {"glyphs": 0, "fonts": 0, "composites": 0, "nested_composites": 0}
+        open(rec_trace, "w").close()
+    n_rec = sum(1 for _ in open(rec_trace))
 
-    # binding self-check: corrupted copies of accepted events must be rejected, a deviation inside the tolerance accepted
-    planted = []
-    exact_src = matrix_src = None
-    with open(rec_trace) as f:
-        for ln in f:
-            e = json.loads(ln)
-            if not e["o"]["ok"]:
-                continue
-            has_q = any(c[0] == 3 for c in e["o"]["cmds"])
-            if exact_src is None and len(e["a"]["glyphs"]) == 1 and has_q:
-                exact_src = e
-            if exact_src is not None:
-                break
-    with open(gen_trace) as f:
-        for ln in f:
-            e = json.loads(ln)
-            # a depth-1 composite with a plain scale: conforms on the current tree
-            if e["case"].endswith("composite") and e["o"]["ok"] and len(e["a"]["glyphs"]) == 4:
-                rec3 = e["a"]["glyphs"][3]["rec"]
-                flags = rec3[10] * 256 + rec3[11]
-                if flags & 0x08 and not flags & 0x20:
-                    matrix_src = e
-                    break
-    if exact_src is None or matrix_src is None:
-        raise vlib.ToolError("self-check: no suitable source event (exact=%s matrix=%s)" % (exact_src is not None, matrix_src is not None))
-
-    def corrupt(e, tag, i, delta):
-        x = json.loads(json.dumps(e))
-        x["case"], x["i"] = tag, i
-        k = next(j for j, c in enumerate(x["o"]["cmds"]) if c[0] == 3)
-        x["o"]["cmds"][k][3] += delta
-        return x
-    planted.append(corrupt(exact_src, "selftest-exact-half-unit", 10 ** 8 + 1, 8192))
-    planted.append(corrupt(matrix_src, "selftest-matrix-1/32", 10 ** 8 + 2, 512))
-    planted.append(corrupt(matrix_src, "selftest-matrix-1/128-accepted", 10 ** 8 + 3, 128))
-    dropped = json.loads(json.dumps(exact_src))       # an implied/explicit point dropped: one command removed
-    dropped["case"], dropped["i"] = "selftest-command-dropped", 10 ** 8 + 4
-    k = next(j for j, c in enumerate(dropped["o"]["cmds"]) if c[0] == 3)
-    del dropped["o"]["cmds"][k]
-    planted.append(dropped)
-
+    planted = _planted_events(src)
     trace = ctx.path("trace.ndjson")
+    sample_rec = None
     with open(trace, "w") as out:
         for p in (gen_trace, rec_trace):
             with open(p) as f:
                 for ln in f:
                     out.write(ln)
+                    if p == rec_trace and sample_rec is None:
+                        sample_rec = json.loads(ln)
         for x in planted:
             out.write(json.dumps(x, separators=(",", ":")) + "\n")
     total, mism, skips, stats = _judge_parallel(ctx, trace, "judge", 6 if ctx.quick else 10)
     ctx.note("judge: %d events, %d mismatches, %d not judged, stats %s" % (total, len(mism), len(skips), json.dumps(stats)))
-    if total != n_cases[0] + rec["glyphs"] + len(planted):
-        raise vlib.ToolError("judge consumed %d events, expected %d" % (total, n_cases[0] + rec["glyphs"] + len(planted)))
 
-    seen_self = {m["case"] for m in mism if m["case"].startswith("selftest-")}
-    want_self = {"selftest-exact-half-unit", "selftest-matrix-1/32", "selftest-command-dropped"}
-    if seen_self != want_self:
-        raise vlib.ToolError("binding self-check failed: rejected %s, expected exactly %s" % (sorted(seen_self), sorted(want_self)))
-    for k in ("start_first_on", "start_last_on", "start_implied", "implied_points", "closing_edge_curves",
-              "with_matrix", "judged_err", "root_composite", "root_simple"):
-        if stats.get(k, 0) == 0:
-            raise vlib.ToolError("judge statistics are vacuous for %s" % k)
-
-    # violations: fetch the events of the mismatching indices so that each replay file is self-contained
+    # violations first: fetch the events of the mismatching indices so that each replay file is self-contained
     bad = {m["i"]: m for m in mism if not m["case"].startswith("selftest-")}
     events = {}
     if bad:
@@ -212,48 +282,60 @@ def run(ctx):
                     e = json.loads(ln)
                 if e is not None and e["i"] in bad:
                     events[e["i"]] = e
-    violations = []
     per_key = {}
     for i, m in sorted(bad.items()):
         key = _key(m)
         per_key[key] = per_key.get(key, 0) + 1
         if per_key[key] > 1:
             continue          # one violation (and replay file) per key; the count is reported below
-        src = "generated" if m["case"].startswith("gen/") else "recorded"
+        srcname = "generated" if m["case"].startswith("gen/") else "recorded"
         what = "%s %s: %s (want %d commands, got %d; first commands want %s got %s)" % (
-            src, m["case"], m["class"], m["nwant"], m["ngot"], vlib.short(m["want"][:3], 150), vlib.short(m["got"][:3], 150))
-        violations.append(Violation(key, what, {"source": src, "mismatch": m, "event": events.get(i)}))
+            srcname, m["case"], m["class"], m["nwant"], m["ngot"], vlib.short(m["want"][:3], 150), vlib.short(m["got"][:3], 150))
+        violations.append(Violation(key, what, {"source": srcname, "mismatch": m, "event": events.get(i)}))
     for k, n in sorted(per_key.items()):
         ctx.note("mismatch class %s: %d events" % (k, n))
 
     skip_why = {}
     for s in skips:
         skip_why[s["why"]] = skip_why.get(s["why"], 0) + 1
-    coverage = {
-        "states": mc.distinct,
+    cov.update({
         "transitions": total,
-        "traces_validated_against_impl": n_cases[0] + rec["glyphs"],
-        "samples": [sample_case[0] if sample_case else None,
-                    {"case": exact_src["case"], "root": exact_src["a"]["root"], "cmds_first": exact_src["o"]["cmds"][:6]}],
-        "generated_cases": n_cases[0],
-        "generated_cases_expected_error": n_err_expected[0],
-        "generated_case_features": features,
+        "traces_validated_against_impl": n_cases[0] + n_rec,
+        "samples": [sample_case] + ([{"case": sample_rec["case"], "root": sample_rec["a"]["root"],
+                                      "cmds_first": sample_rec["o"]["cmds"][:6]}] if sample_rec else []),
         "generated_visits_not_ok": rep.get("visits_not_ok", 0),
         "recorded_fonts": rec["fonts"],
-        "recorded_glyphs": rec["glyphs"],
+        "recorded_glyphs": n_rec,
         "recorded_composites": rec["composites"],
         "recorded_nested_composites": rec["nested_composites"],
+        "recorded_fonts_not_opened": rec.get("fonts_not_readable", 0),
+        "recorded_glyf_tables_not_readable": rec.get("glyf_tables_not_readable", 0),
         "events_judged": total,
         "events_not_judged": skip_why,
         "judge_statistics": stats,
         "mismatch_classes": per_key,
-        "tlc_states_generated": mc.generated,
-        "binding_selfcheck": "3 corrupted events rejected, 1 in-tolerance deviation accepted",
         "exhaustive": True,
         "explanation": "exhaustive over the bounded model (config %s); repository glyphs: %s" %
                        (cfg, "seeded sample of %d per font plus all nested / matrix composites" % sample if sample else "all"),
-    }
-    vlib.finish(ctx, LEVEL, coverage, violations, ASSUMPTIONS)
+    })
+
+    # the remaining guards concern the tool itself (specification, harness inputs, driver); they are raised only
+    # now, and run() lets violations win over them
+    if total != n_cases[0] + n_rec + len(planted):
+        raise vlib.ToolError("judge consumed %d events, expected %d" % (total, n_cases[0] + n_rec + len(planted)))
+    seen_self = {m["case"] for m in mism if m["case"].startswith("selftest-")}
+    want_self = {k for k, rejected in SELFTEST.items() if rejected}
+    if seen_self != want_self:
+        raise vlib.ToolError("binding self-check failed: rejected %s, expected exactly %s" % (sorted(seen_self), sorted(want_self)))
+    cov["binding_selfcheck"] = "%d planted non-conforming deliveries rejected, %d planted conforming ones accepted (all built from TLC output)" % (
+        len(want_self), len(SELFTEST) - len(want_self))
+    # statistics computed by the judge from the glyph records (the specification's own parse), not from deliveries
+    for k in ("start_first_on", "start_last_on", "start_implied", "implied_points", "closing_edge_curves",
+              "with_matrix", "judged_err", "root_composite", "root_simple"):
+        if stats.get(k, 0) == 0:
+            raise vlib.ToolError("judge statistics are vacuous for %s" % k)
+    if n_rec == 0:
+        raise vlib.ToolError("no glyph recorded from the repository fonts: %s" % json.dumps(rec))
 
 
 def replay(ctx, path):
